@@ -9,6 +9,8 @@
 #include "parcommon.h"
 #include <math.h>
 #include <unistd.h>
+#include <sys/time.h>
+#include <time.h>
 
 typedef struct { uint64_t h[3]; long s[2]; } canon_t;
 static int canon_eq(const canon_t *a, const canon_t *b) { return !memcmp(a, b, sizeof *a); }
@@ -59,6 +61,13 @@ static uint64_t reconstruct(const mzd_t *F, rci_t r, const mzp_t *P, const mzp_t
 }
 static int perm_ok(const mzp_t *P) { for (rci_t i = 0; i < P->length; i++) if (P->values[i] < i || P->values[i] >= P->length) return 0; return 1; }
 
+/* CPU-time limit of the child, re-armed around single evaluations: a varied configuration gets 60 times the CPU time the shipped
+ * configuration needed for the same call (at least 4 s), so that a configuration-dependent hang costs seconds, not the whole run limit */
+static void cpu_limit(double seconds) {
+  struct itimerval itv = { { 0, 0 }, { (time_t)seconds, (suseconds_t)((seconds - (double)(time_t)seconds) * 1e6) } };
+  setitimer(ITIMER_VIRTUAL, &itv, NULL);
+}
+static double cpu_now(void) { struct timespec ts; clock_gettime(CLOCK_PROCESS_CPUTIME_ID, &ts); return (double)ts.tv_sec + 1e-9 * (double)ts.tv_nsec; }
 /* one evaluation of a family under library L with parameters; route selects the algorithm */
 static int eval_family(const char *fam, const lib_t *L, int route, int k, int cutoff, int full, canon_t *out) {
   memset(out, 0, sizeof *out);
@@ -201,7 +210,8 @@ static void child_run(void *ud) {
   static int have[8][2];
   memset(have, 0, sizeof have);
   sched_enable(0);
-  { canon_t probe; if (eval_family(fam, REF, 0, 0, 0, 1, &probe)) { sim_shared->aux[1] = 1; return; } refc[0][1] = probe; have[0][1] = 1; }
+  static double tref[8][2];
+  { canon_t probe; double t0 = cpu_now(); if (eval_family(fam, REF, 0, 0, 0, 1, &probe)) { sim_shared->aux[1] = 1; return; } refc[0][1] = probe; have[0][1] = 1; tref[0][1] = cpu_now() - t0; }
   cov->runs++;
   for (int i = 0; i < ncfg && !viol; i++) {
     char vn[32];
@@ -250,6 +260,16 @@ static void child_run(void *ud) {
     if (!L) continue; /* variant not linked into this binary (quick tier links a subset) */
     if (l1 < 1024 || l2 < l1 || l3 < l2) continue;
     m4sim_l1 = (int)l1; m4sim_l2 = (int)l2; m4sim_l3 = (int)l3;
+    int rr = route & 7, ff = fl ? 1 : 0;
+    if (!strcmp(fam, "echelon") == 0) ff = 1; /* `full` only matters for the echelon family */
+    if (!have[rr][ff]) { /* the shipped configuration first: it also calibrates the time limit of the varied one */
+      m4sim_l1 = 32768; m4sim_l2 = 1310720; m4sim_l3 = 56623104;
+      double t0 = cpu_now();
+      eval_family(fam, REF, rr, 0, 0, ff, &refc[rr][ff]);
+      tref[rr][ff] = cpu_now() - t0;
+      have[rr][ff] = 1;
+      m4sim_l1 = (int)l1; m4sim_l2 = (int)l2; m4sim_l3 = (int)l3;
+    }
     canon_t got;
     if (L->openmp) {
       sched_cfg_t sc;
@@ -259,7 +279,11 @@ static void child_run(void *ud) {
       sched_enable(1);
       cov->probes[Q_OMP]++;
     }
+    sim_shared->aux[5] = 1; /* a varied configuration is being evaluated (attribution of a time-out) */
+    cpu_limit(tref[rr][ff] * 60.0 > 4.0 ? tref[rr][ff] * 60.0 : 4.0);
     eval_family(fam, L, route, k, cutoff, fl, &got);
+    cpu_limit(150.0);
+    sim_shared->aux[5] = 0;
     sched_enable(0);
     cov->configs++;
     if (!L->sse2) cov->probes[Q_NOSSE]++;
@@ -281,13 +305,6 @@ static void child_run(void *ud) {
       if ((!strcmp(fam, "pluq") || !strcmp(fam, "ple")) && A && A->nrows > (l1 >> 3) / (A->width ? A->width : 1)) cov->probes[Q_SMALL_L1_STRIPS]++;
     }
     for (int v = 0; v < m4sim_nlibs && v < 16; v++) if (m4sim_libs[v] == L) cov->variant_use[v]++;
-    int rr = route & 7, ff = fl ? 1 : 0;
-    if (!strcmp(fam, "echelon") == 0) ff = 1; /* `full` only matters for the echelon family */
-    if (!have[rr][ff]) {
-      m4sim_l1 = 32768; m4sim_l2 = 1310720; m4sim_l3 = 56623104;
-      eval_family(fam, REF, rr, 0, 0, ff, &refc[rr][ff]);
-      have[rr][ff] = 1;
-    }
     canon_t want = refc[rr][ff];
     if (!canon_eq(&got, &want)) {
       viol = 1;
@@ -342,8 +359,19 @@ static void gen_program(uint64_t rseed, uint64_t idx, const char *tier, sbuf_t *
   unsigned long long s1 = (unsigned long long)(rng_u64(&r) >> 1), s2 = (unsigned long long)(rng_u64(&r) >> 1), s3 = (unsigned long long)(rng_u64(&r) >> 1);
   const char *gens[] = { "rand", "rand", "rank", "sparse" };
   const char *g = gens[rng_below(&r, 4)];
+  /* two shape classes outside the usual box, chosen by the ordinal of the case within its family:
+     sliver - one dimension 1..8, the other beyond L3/3 columns of the smallest L3 (the automatic table parameter k and the blocking
+              heuristics compare products of dimensions and cache sizes; their corner is the extremely flat matrix);
+     huge   - all dimensions just above 4096, where the automatic k of M4RM reaches its upper end for L2 sizes of 1.5..4 MiB. */
+  uint64_t ord = idx / NFAM;
+  int sliver = ord % 8 == 5, huge = !sliver && ord % 32 == 7 && (!strcmp(fam, "product") || !strcmp(fam, "accumulate"));
+  int tiny = 1 + (int)rng_below(&r, 8), big = 21846 + (int)rng_below(&r, 5000);
+  if (rng_chance(&r, 1, 2)) tiny = 1 + (int)rng_below(&r, 3);
+  if (sliver) focus_l3 = 65536;
   if (!strcmp(fam, "product") || !strcmp(fam, "accumulate")) {
     int m = tdim(&r, maxd, focus_l3), l = tdim(&r, maxd, focus_l3), n = tdim(&r, maxd, focus_l3);
+    if (sliver) { int w = (int)rng_below(&r, 3); m = w == 0 ? tiny : w == 1 ? big : 1 + (int)rng_below(&r, 40); l = w == 1 ? tiny : w == 2 ? big : 1 + (int)rng_below(&r, 40); n = w == 2 ? tiny : w == 0 ? big : 1 + (int)rng_below(&r, 40); g = "rand"; }
+    if (huge) { m = 4096 + (int)rng_below(&r, 130); l = 4096 + (int)rng_below(&r, 130); n = 4096 + (int)rng_below(&r, 130); g = "rand"; }
     int sq = !strcmp(fam, "product") && rng_chance(&r, 1, 6);
     if (sq) { l = m; n = m; }
     sb_printf(o, "mat 1 %d %d %s %d %llu\n", m, l, g, !strcmp(g, "rand") ? 128 : 1 + (int)rng_below(&r, (uint64_t)(m < l ? m : l)), s1);
@@ -355,6 +383,7 @@ static void gen_program(uint64_t rseed, uint64_t idx, const char *tier, sbuf_t *
       focus_l3 = 65536;
       m = 760 + (int)rng_below(&r, 300); n = 760 + (int)rng_below(&r, 300);
     }
+    if (sliver) { if (rng_chance(&r, 2, 3)) { m = tiny; n = big; } else { m = big; n = tiny; } }
     int rk = rng_chance(&r, 1, 2) ? 128 : 1 + (int)rng_below(&r, (uint64_t)(m < n ? m : n));
     if (rng_chance(&r, 1, 3)) rk = 1 + (int)rng_below(&r, 6); /* very low rank: recursive regimes meet rank-0/1/2 blocks */
     sb_printf(o, "mat 0 %d %d %s %d %llu\n", m, n, rng_chance(&r, 2, 3) ? "rank" : "rand", rk, s1);
@@ -363,6 +392,7 @@ static void gen_program(uint64_t rseed, uint64_t idx, const char *tier, sbuf_t *
     sb_printf(o, "mat 0 %d %d inv 0 %llu\n", n, n, s1);
   } else if (!strncmp(fam, "trsm_", 5)) {
     int n = tdim(&r, maxd, focus_l3), w = tdim(&r, maxd, focus_l3);
+    if (sliver) { n = tiny; w = big; }
     int upper = fam[5] == 'u', left = fam[6] == 'l';
     sb_printf(o, "mat 0 %d %d %s %d %llu\n", n, n, upper ? "uut" : "ult", (int)rng_below(&r, 2), s1);
     if (left) sb_printf(o, "mat 1 %d %d rand 128 %llu\n", n, w, s2); else sb_printf(o, "mat 1 %d %d rand 128 %llu\n", w, n, s2);
@@ -371,6 +401,7 @@ static void gen_program(uint64_t rseed, uint64_t idx, const char *tier, sbuf_t *
     sb_printf(o, "mat 0 %d %d uut 0 %llu\n", n, n, s1);
   } else if (!strcmp(fam, "solve")) {
     int m = tdim(&r, maxd, focus_l3), n = tdim(&r, maxd, focus_l3), w = tdim(&r, 300, focus_l3);
+    if (sliver) { if (rng_chance(&r, 1, 2)) { m = tiny; n = big; w = 1 + (int)rng_below(&r, 5); } else { m = big; n = tiny; w = 1 + (int)rng_below(&r, 5); } }
     sb_printf(o, "mat 0 %d %d %s %d %llu\n", m, n, rng_chance(&r, 1, 2) ? "rank" : "rand", rng_chance(&r, 1, 2) ? 128 : 1 + (int)rng_below(&r, (uint64_t)(m < n ? m : n)), s1);
     sb_printf(o, "mat 1 %d %d %s 128 %llu\n", m > n ? m : n, w, rng_chance(&r, 1, 3) ? "zero" : "rand", s2);
   }
@@ -384,21 +415,30 @@ static void gen_program(uint64_t rseed, uint64_t idx, const char *tier, sbuf_t *
     return;
   }
   int ncfg = thorough ? 24 : 12;
-  long l1s[] = { 4096, 8192, 16384, 32768, 65536 }, l2s[] = { 32768, 65536, 262144, 1310720, 2097152 };
+  if (huge) ncfg = thorough ? 10 : 6;
+  long l1s[] = { 4096, 8192, 16384, 32768, 65536 }, l2s[] = { 32768, 65536, 262144, 1310720, 2097152, 1572865, 3145728, 4194304 };
   long cuts[] = { 0, 64, 128, 192, 256, 512, 1024, 2048, 100 };
   for (int i = 0; i < ncfg; i++) {
     const char *vn = i == 0 ? "s_c_q" : ALLV[rng_below(&rc, 8)];
-    long l1 = l1s[rng_below(&rc, 5)], l2 = l2s[rng_below(&rc, 5)], l3 = rng_chance(&rc, 1, 2) ? focus_l3 : l3s[rng_below(&rc, 6)];
+    long l1 = l1s[rng_below(&rc, 5)], l2 = l2s[rng_below(&rc, huge ? 8 : 5)], l3 = rng_chance(&rc, 1, 2) ? focus_l3 : l3s[rng_below(&rc, 6)];
     if (i == 0) { l1 = 32768; l2 = 1310720; l3 = 56623104; } /* knob build at the shipped sizes: isolates the variant axis */
+    if (sliver && i > 0 && i % 2) l3 = 65536;
+    if (huge && i > 0 && i % 2) { l2 = l2s[4 + rng_below(&rc, 4)]; if (l3 < 8388608) l3 = 8388608; }
     if (l2 < l1) l2 = l1;
     if (l3 < l2) l3 = l2;
-    sb_printf(o, "cfg %s %ld %ld %ld %d %ld %d %d %d %llu\n", vn, l1, l2, l3, (int)rng_below(&rc, 11), cuts[rng_below(&rc, 9)], (int)rng_below(&rc, 5), full, 1 + (int)rng_below(&rc, 16), (unsigned long long)(rng_u64(&rc) >> 1));
+    int kq = (int)rng_below(&rc, 11), routeq = (int)rng_below(&rc, 5);
+    long cutq = cuts[rng_below(&rc, 9)];
+    if ((sliver || huge) && i % 2) kq = 0; /* the automatic choice is what depends on the cache sizes */
+    if (huge) { int rts[] = { 0, 1, 1, 3, 4 }; long hc[] = { 0, 0, 4096, 2048, 1024 }; routeq = rts[rng_below(&rc, 5)]; cutq = hc[rng_below(&rc, 5)]; }
+    if (sliver && routeq == 2 && rng_chance(&rc, 1, 2)) routeq = 0;
+    sb_printf(o, "cfg %s %ld %ld %ld %d %ld %d %d %d %llu\n", vn, l1, l2, l3, kq, cutq, routeq, full, 1 + (int)rng_below(&rc, 16), (unsigned long long)(rng_u64(&rc) >> 1));
   }
 }
 
 static const char *classify(const child_res_t *cr) {
   if (sim_shared->aux[1]) return "SKIPPED";
   if (sim_shared->aux[6]) return "region_never_joins";
+  if (cr->fate == FATE_TIMEOUT && sim_shared->aux[5]) return "no_result_under_some_configuration"; /* the shipped configuration returned, a varied one did not within the CPU limit */
   if (cr->fate != FATE_EXIT0) { static char b[64]; snprintf(b, sizeof b, "faultfree_%s", fate_names[cr->fate]); return b; }
   if (!sim_shared->completed) return "incomplete";
   return sim_shared->aux[3] == 2 ? "HARNESS_knob_mechanism_mismatch" : sim_shared->aux[3] ? "result_depends_on_configuration" : "ok";
@@ -426,7 +466,7 @@ static int cmd_worker(int argc, char **argv) {
     eng_write_file(cur, sb.s);
     runarg_t a = { sb.s };
     child_res_t cr;
-    eng_fork_run(child_run, &a, errpath, 900, &cr);
+    eng_fork_run(child_run, &a, errpath, 150, &cr);
     const char *cls = classify(&cr);
     char scen[64] = "?";
     const char *s = strstr(sb.s, "scenario=");
@@ -459,7 +499,7 @@ static int cmd_exec(int argc, char **argv) {
   cov = (ccov_t *)SIM_SHARED_EXT;
   runarg_t a = { text };
   child_res_t cr;
-  eng_fork_run(child_run, &a, errpath, 900, &cr);
+  eng_fork_run(child_run, &a, errpath, 150, &cr);
   const char *cls = classify(&cr);
   char buf[300];
   eng_first_line_matching(errpath, "rror", buf, sizeof buf);
